@@ -17,7 +17,9 @@ META = {
     "level_text": "Theorems in props/C06.v about the functions tools/pygen/attrpolicy.py regenerates from _check_attr/_access_attr on every run: "
                   "the decision equals the property's table at every point of the (finite) abstract domain - proved by kernel evaluation over enumerations "
                   "proved complete - and, lifted to concrete inputs, for every prefix, safe set, name (text, bytes, non-text) and attribute set; refusals have no effect; "
-                  "own hooks and restricted views decide instead of the configuration; a Service instance denies set/del on itself under every configuration "
+                  "own hooks and restricted views decide instead of the configuration ON EVERY BY-NAME ROUTE THAT HANDS THE OBJECT ITSELF TO _access_attr "
+                  "(getattr, setattr, delattr, callattr, ctxexit, oldslicing); the cmp route hands over type(obj), so there the object's own hook is never asked "
+                  "(route targets are generated and tied; c06_cmp_route_refuted_when_unrestricted / c06_cmp_route_only_comparisons); a Service instance denies set/del on itself under every configuration "
                   "(generated facts about class Service's hook bodies; every definition/binding of a _rpyc_*attr hook under rpyc/ is listed and tied); "
                   "the seven request handlers that take an attribute name (cmp, getattr, delattr, setattr, callattr, ctxexit, oldslicing) reach attributes only "
                   "through _access_attr with the matching hook/permission/builtin (c06_all_routes_checked_partial); isolation for every history of opens/classic "
@@ -25,7 +27,12 @@ META = {
                   "__init__, on_connect writes only the given connection, every write to any config dict under rpyc/ sits in __init__/on_connect so requests and "
                   "close write none), each shown necessary by a refuted-variant theorem. Proof is the right level: the decision domain is finite but large, the "
                   "isolation clause quantifies over unbounded histories.",
-    "level_note": "NOT covered by the policy theorems (stated in props/C06.v, c06_route_exclusions): the thirteen handlers that take no attribute name. dir returns "
+    "level_note": "cmp route: on the pinned tree the peer-chosen name is free there, so a method the object's hook refuses can be called by name (proposed finding "
+                  "route:cmp:own-hook-bypassed, repair build/proposed_findings/C06_cmp.patch restricts the route to the comparison protocol); with the repair "
+                  "comparisons are applied as Python applies operators: through the type, subject to the configuration, not to the instance's hook - stated as SCOPE. "
+                  "Histories are sequences of ATOMIC opens: one service instance shared by connections that are opened concurrently can interleave "
+                  "SlaveService.on_connect's `self._conn = conn; self._conn._config.update(...)` so that one connection's blanket grant lands on the other "
+                  "connection of the same service (which grants itself the same) and not on its own - not modelled. NOT covered by the policy theorems (stated in props/C06.v, c06_route_exclusions): the thirteen handlers that take no attribute name. dir returns "
                   "the names dir(obj) lists, inspect returns names and docstrings of callables in the class dicts of type(obj) (also with allow_getattr off), pickle "
                   "returns the whole state gated by allow_pickle alone, repr/str/hash/call/buffiter/instancecheck run the object's special methods. For these the "
                   "harness only checks that they never write/delete, that dir/inspect do not depend on the seven switches and that pickle is refused iff allow_pickle "
@@ -606,101 +613,177 @@ def route_case(kind, cfg, **kw):
     return case
 
 
-def route_cmp(ctx, cfg, opname, have):
-    """_handle_cmp: the attribute named by the peer is looked up on type(obj)"""
+CMP_NAMES = ("__cmp__", "__eq__", "__ne__", "__lt__", "__le__", "__gt__", "__ge__")
+
+
+def route_cmp(ctx, cfg, nm, have, inst_hook):
+    """_handle_cmp: the attribute named by the peer is looked up on type(obj) and called with (obj, other).
+    inst_hook: the class defines _rpyc_getattr, i.e. its instances decide about their own attributes.
+    The statement: own hooks decide instead of the configuration, and a method is called by name only per policy.  On
+    this route the comparison protocol (CMP_NAMES) is applied as Python applies operators - through the type, subject to
+    the configuration (stated SCOPE of props/C06.v); any OTHER name must not get past an object's own hook."""
     prefix = cfg["exposed_prefix"]
+    text = name_text(nm)
     conn = P.Connection(S.VoidService(), Ch(), dict(cfg))
     try:
         ns = {a: (lambda tag: (lambda self, other: LOG.append(("called", tag)) or ("ret", tag)))(a) for a in have}
+        if inst_hook:
+            def _rpyc_getattr(self, name):
+                LOG.append(("hook-get", name))
+                raise AttributeError("no")
+            ns["_rpyc_getattr"] = _rpyc_getattr
         cls = LogMeta("K", (object,), ns)
 
         def has(x):
-            return x in have or hasattr(object, x)
-        exp = oracle(cfg, "get", ["str", T(opname)], has, False)
+            return x in ns or hasattr(object, x)
+        exp = oracle(cfg, "get", nm, has, False)
         del LOG[:]
         try:
-            res = ("ok", conn._HANDLERS[consts.HANDLE_CMP](conn, cls(), 7, opname))
+            res = ("ok", conn._HANDLERS[consts.HANDLE_CMP](conn, cls(), 7, name_value(nm)))
         except Exception as e:
             res = ("exc", C.exc_enum(e))
-        log = [e for e in LOG if e[0] in ("get", "called") and e[1] not in ("__class__",)]
+        log = [e for e in LOG if e[0] in ("get", "called", "hook-get") and e[1] not in ("__class__",)]
     finally:
         conn._closed = True
-    case = route_case("cmp", cfg, opname=T(opname), have=[T(a) for a in have])
-    ctx.case(("cmp", tuple(case["switches"]), prefix, tuple(sorted(cfg["safe_attrs"])), opname, tuple(have)), nontrivial=bool(cfg["allow_getattr"]),
-             sample={"cmp": opname, "expected": list(exp), "observed": repr(res)})
-    ctx.count("routes:cmp:" + exp[0])
+    case = route_case("cmp", cfg, name=nm, have=[T(a) for a in have], inst_hook=bool(inst_hook))
+    ctx.case(("cmp", tuple(case["switches"]), prefix, tuple(sorted(cfg["safe_attrs"])), repr(nm), tuple(have), inst_hook),
+             nontrivial=bool(cfg["allow_getattr"]) and text is not None,
+             sample={"cmp": repr(nm), "hooked": bool(inst_hook), "expected": list(exp), "observed": repr(res)})
+    ctx.count("routes:cmp:%s:%s" % ("hooked" if inst_hook else "plain", exp[0]))
     gets = [e[1] for e in log if e[0] == "get"]
-    if exp[0] == "AttributeError":
-        if res != ("exc", "AttributeError") or any(e[0] == "called" for e in log) or any(g != prefix + opname for g in gets):
-            ctx.violation("route:cmp:refusal-expected", case, observed={"result": repr(res), "log": log}, expected="AttributeError, no effect",
+    called = [e[1] for e in log if e[0] == "called"]
+    obs = {"result": repr(res), "log": log}
+    refused = res == ("exc", "AttributeError") and not called and all(g in (prefix + (text or ""), text) for g in gets)
+    if text is None:
+        if res != ("exc", "TypeError") or called or gets:
+            ctx.violation("route:cmp:not-text-name", case, observed=obs, expected="TypeError, no effect",
+                          what="comparison by a name that is not text did not fail with TypeError without effect")
+        return
+    conform = exp[0] == "touch" and bool(gets) and gets[-1] == exp[1] and all(g in (prefix + text, text) for g in gets[:-1]) \
+        and (exp[1] not in have or (res == ("ok", ("ret", exp[1])) and called == [exp[1]])) and (exp[1] in have or not called)
+    if text not in CMP_NAMES:
+        if refused:
+            return
+        if inst_hook:
+            ctx.violation("route:cmp:own-hook-bypassed", case, observed=obs, expected="AttributeError: the object's own hook refuses every name",
+                          what="HANDLE_CMP with a peer-chosen name reached a method of an object whose own _rpyc_getattr decides (and refuses) on every other route")
+        elif not conform:
+            ctx.violation("route:cmp:refusal-expected" if exp[0] != "touch" else "route:cmp:grant-expected", case, observed=obs, expected=list(exp),
+                          what="call by name on the cmp route did not follow the configuration")
+        return
+    # the comparison protocol: the configuration decides on the type
+    if exp[0] != "touch":
+        if not refused:
+            ctx.violation("route:cmp:refusal-expected", case, observed=obs, expected="AttributeError, no effect",
                           what="comparison by a name the configuration does not allow reached the type")
-    elif exp[0] == "touch":
-        final = exp[1]
-        if not gets or gets[-1] != final:
-            ctx.violation("route:cmp:grant-expected", case, observed={"result": repr(res), "log": log}, expected={"touch": final},
+    elif exp[1] == text:
+        if not conform:
+            ctx.violation("route:cmp:grant-expected", case, observed=obs, expected={"touch": exp[1]},
                           what="comparison by an allowed name did not use the decided attribute")
-        elif final in have and (res != ("ok", ("ret", final)) or [e for e in log if e[0] == "called"] != [("called", final)]):
-            ctx.violation("route:cmp:wrong-result", case, observed={"result": repr(res), "log": log}, expected=("ret", final),
-                          what="comparison did not call the decided attribute")
+    elif not (refused or conform):
+        ctx.violation("route:cmp:wrong-result", case, observed=obs, expected={"touch": exp[1]}, what="comparison reached another attribute than the decided one")
 
 
-def route_inst(ctx, cfg, route, names, attrs):
-    """_handle_ctxexit (fixed name __exit__) and _handle_oldslicing (two peer-chosen names, the second a fallback)"""
+def route_inst(ctx, cfg, route, nms, attrs, okind="plain", rattrs=()):
+    """_handle_ctxexit (fixed name __exit__) and _handle_oldslicing (two peer-chosen names, the second a fallback), on a plain
+    object, on an object with its own _rpyc_getattr (okind 'hooked'), or on a restricted() view listing rattrs"""
     prefix = cfg["exposed_prefix"]
     conn = P.Connection(S.VoidService(), Ch(), dict(cfg))
     try:
-        o = make_obj(attrs)
+        if okind == "restricted":
+            under = Under()
+            for a in attrs:
+                object.__setattr__(under, a, Callee(a))
+            o = H.restricted(under, set(rattrs))
+        else:
+            o = make_obj(attrs, (1, 0, 0) if okind == "hooked" else (0, 0, 0))
         has2 = lambda x: x in attrs or x in INHERENT
-        exps = [oracle(cfg, "get", ["str", T(n)], has2, False) for n in names]
         del LOG[:]
         try:
             if route == "ctxexit":
                 rr = conn._HANDLERS[consts.HANDLE_CTXEXIT](conn, o, None)
             else:
-                rr = conn._HANDLERS[consts.HANDLE_OLDSLICING](conn, o, names[0], names[1], 1, 5, ())
+                rr = conn._HANDLERS[consts.HANDLE_OLDSLICING](conn, o, name_value(nms[0]), name_value(nms[1]), 1, 5, ())
             res = ("ok", rr)
         except Exception as e:
             res = ("exc", C.exc_enum(e))
         log = list(LOG)
     finally:
         conn._closed = True
-    case = route_case(route, cfg, names=[T(n) for n in names], attrs=[T(a) for a in attrs])
-    ctx.case((route, tuple(case["switches"]), prefix, tuple(sorted(cfg["safe_attrs"])), tuple(names), tuple(attrs)), nontrivial=bool(cfg["allow_getattr"]),
-             sample={route: names, "expected": [list(e) for e in exps], "observed": repr(res)})
-    ctx.count("routes:%s:%s" % (route, exps[0][0]))
-    # expected: the first name; if that fails (refused or absent) and there is a fallback, the fallback
+    case = route_case(route, cfg, names=nms, attrs=[T(a) for a in attrs], okind=okind, rattrs=[T(a) for a in rattrs])
+    # per name: what the statement says happens when that name is read and the result called
+    steps = []
+    for nm in nms:
+        t = name_text(nm)
+        if t is None:
+            steps.append(("exc", "TypeError", None))
+        elif okind == "hooked":
+            steps.append(("ok", "hook:" + t, None))
+        elif okind == "restricted":
+            steps.append(("ok", t, None) if (t in rattrs and t in attrs) else ("exc", "AttributeError", None))
+        else:
+            e = oracle(cfg, "get", nm, has2, False)
+            steps.append(("ok", e[1], e) if (e[0] == "touch" and e[1] in attrs) else ("exc", "AttributeError", e))
+    ctx.case((route, tuple(case["switches"]), prefix, tuple(sorted(cfg["safe_attrs"])), repr(nms), tuple(attrs), okind, tuple(rattrs)),
+             nontrivial=bool(cfg["allow_getattr"]) or okind != "plain",
+             sample={route: repr(nms), "object": okind, "expected": [list(x[:2]) for x in steps], "observed": repr(res)})
+    ctx.count("routes:%s:%s:%s" % (route, okind, steps[0][0]))
     seq, outcome = [], None
-    for n, e in zip(names, exps):
-        if e[0] == "touch" and e[1] in attrs:
-            seq.append(e[1])
-            outcome = ("ok", ("ret", e[1]))
+    for st in steps:
+        if st[0] == "ok":
+            seq, outcome = [st[1]], ("ok", ("ret", st[1]))
             break
-        outcome = ("exc", "AttributeError")
+        outcome = ("exc", st[1])
     called = [e[1] for e in log if e[0] == "called"]
-    permitted = {e[1] for e in exps if e[0] == "touch"} | {prefix + n for n in names}      # decided attribute, twin probe
-    # hasattr(obj, name) is looked at only for names that are allowed by themselves
-    probes = {n for n in names if oracle(cfg, "get", ["str", T(n)], lambda x: False, False) == ("touch", n)}
     reached = [e[1] for e in log if e[0] == "get"]
-    if res != outcome or called != seq or any(g not in permitted | probes for g in reached) or any(e[0] in ("set", "del") for e in log):
-        ctx.violation("route:%s:policy-not-followed" % route, case, observed={"result": repr(res), "log": log},
-                      expected={"result": outcome, "called": seq}, what="%s reached an attribute against the configuration" % route)
+    texts = [name_text(nm) for nm in nms if name_text(nm) is not None]
+    if okind == "plain":
+        permitted = {st[2][1] for st in steps if st[2] and st[2][0] == "touch"} | {prefix + n for n in texts}     # decided attribute, twin probe
+        # hasattr(obj, name) is looked at only for names that are allowed by themselves
+        permitted |= {n for n in texts if oracle(cfg, "get", ["str", T(n)], lambda x: False, False) == ("touch", n)}
+    elif okind == "hooked":
+        permitted = set()
+    else:
+        permitted = {n for n in texts if n in rattrs}
+    if res != outcome or called != seq or any(g not in permitted for g in reached) or any(e[0] in ("set", "del") for e in log):
+        sig = "route:%s:policy-not-followed" % route if okind == "plain" else "route:%s:%s-object-not-deciding" % (route, okind)
+        ctx.violation(sig, case, observed={"result": repr(res), "log": log}, expected={"result": outcome, "called": seq},
+                      what="%s on a %s object reached an attribute against %s" % (route, okind, "the configuration" if okind == "plain" else "the object's own hook"))
+
+
+CMP_OPS_POOL = ["__cmp__", "__eq__", "__lt__", "__ge__", "pubcmp", "_privcmp", "__mycmp__", "dump", "_rpyc_getattr"]
 
 
 def routes_phase(ctx, rounds):
     """the handlers that reach attributes by a peer-chosen or fixed name other than get/set/del/callattr"""
     r = ctx.rng
+    # the reviewer's case first: default configuration, a class whose hook refuses everything, a method with an exposed twin
+    dflt = cfg_dict([DEFAULT_SNAPSHOT[k] for k in SW], DEFAULT_SNAPSHOT["exposed_prefix"], SMALL_SAFE)
+    route_cmp(ctx, dflt, ["str", T("dump")], ["exposed_dump"], True)
+    route_cmp(ctx, dflt, ["str", T("dump")], ["exposed_dump"], False)
+    route_cmp(ctx, dflt, ["bytes", b"dump\xff".hex()], ["dump", "exposed_dump"], False)
     for i in range(rounds):
         cfg = rand_cfg(r, set(SMALL_SAFE))
         if r.random() < 0.5:
-            cfg["safe_attrs"] = set(cfg["safe_attrs"]) | {"__exit__", "__getitem__"}
+            cfg["safe_attrs"] = set(cfg["safe_attrs"]) | {"__exit__", "__getitem__", "__eq__", "__lt__"}
         prefix = cfg["exposed_prefix"]
-        opname = r.choice(["__cmp__", "__eq__", "__lt__", "pubcmp", "_privcmp", prefix + "c", "__mycmp__"])
-        have = [a for a in (opname, prefix + opname) if r.random() < 0.5 and a not in INHERENT and not hasattr(object, a)]
-        route_cmp(ctx, cfg, opname, sorted(set(have)))
+        opname = r.choice(CMP_OPS_POOL + [prefix + "c"])
+        have = sorted({a for a in (opname, prefix + opname) if r.random() < 0.5 and a not in ("_rpyc_getattr",)})
+        k = r.random()
+        nm = ["str", T(opname)] if k < 0.8 else ["bytes", opname.encode("utf8").hex()] if k < 0.88 else \
+            ["bytes", (opname.encode("utf8") + r.choice(BAD_BYTES)).hex()] if k < 0.95 else ["other", r.choice(sorted(OTHER_NAMES))]
+        route_cmp(ctx, cfg, nm, have, r.random() < 0.4)
         for route in ("ctxexit", "oldslicing"):
             names = ["__exit__"] if route == "ctxexit" else [r.choice(["__getitem__", "pubitem", "_g"]), r.choice(["__getslice__", "pubslice", "_s"])]
             attrs = sorted({a for n in names for a in (n, prefix + n) if r.random() < 0.6})
-            route_inst(ctx, cfg, route, names, attrs)
+            nms = []
+            for n in names:
+                k = r.random()
+                nms.append(["str", T(n)] if (k < 0.8 or route == "ctxexit") else ["bytes", n.encode().hex()] if k < 0.87 else
+                           ["bytes", (n.encode() + r.choice(BAD_BYTES)).hex()] if k < 0.95 else ["other", r.choice(sorted(OTHER_NAMES))])
+            okind = r.choice(["plain", "plain", "hooked", "restricted"])
+            rattrs = sorted(r.sample(names + ["pub"], r.randint(0, len(names)))) if okind == "restricted" else []
+            route_inst(ctx, cfg, route, nms, attrs, okind, rattrs)
 
 
 # ---------------------------------------------------------------- restricted()
@@ -1047,18 +1130,24 @@ def upd_sx(upd):
 PROBES = [("get", "pub"), ("get", "_priv"), ("set", "pub"), ("del", "_priv"), ("get", "__len__"), ("get", "exposed_y"), ("set", "__secret__")]
 
 
-def decisions(conn, cfgproj):
-    """run a probe set on a live connection and compare each decision with the statement under cfgproj"""
+def decisions(conn, cfgproj, shared=None):
+    """run a probe set on a live connection and compare each decision with the statement under cfgproj.
+    shared: long-lived objects of this history, read by EVERY connection (a per-object cache of decisions or values that
+    is not per connection would let one connection's policy serve another)"""
     cfg = dict(zip(SW, cfgproj["switches"]))
     cfg["exposed_prefix"] = cfgproj["prefix"]
     cfg["safe_attrs"] = set(cfgproj["safe"])
     bad = []
     for op, name in PROBES:
         attrs = [name]
-        o = make_obj(attrs)
+        if op == "get" and shared is not None:
+            o = shared.setdefault(name, make_obj(attrs))
+        else:
+            o = make_obj(attrs)
         exp = oracle(cfg, op, ["str", T(name)], lambda x: x in attrs, False)
         res, log = run_impl(conn, op, name, o)
-        got = ("touch", [e for e in log if e[0] in ("get", "set", "del")][-1][1]) if (res[0] == "ok") else (res[1],)
+        objlog = [e for e in log if e[0] in ("get", "set", "del")]
+        got = (("touch", objlog[-1][1]) if objlog else ("ok-without-touching-the-object",)) if (res[0] == "ok") else (res[1],)
         if got != exp:
             bad.append({"probe": [op, name], "expected": list(exp), "observed": list(got)})
     return bad
@@ -1146,6 +1235,7 @@ def run_history(ctx, ops, facts, model_cases):
     shared_dicts = {}
     case = {"kind": "history", "ops": ops}
     steps = []
+    shared_objs = {}
     import random
     pick = random.Random(len(ops) * 7919 + sum(len(repr(o)) for o in ops))
 
@@ -1170,7 +1260,7 @@ def run_history(ctx, ops, facts, model_cases):
                     bad("isolation:user-config-dict-mutated", "opening a connection changed the configuration dict it was given", d, before)
                 pr = project(conn._config)
                 if svc == "void":
-                    want = project(dict(DEFAULT_SNAPSHOT, **{k: (set(v) if k == "safe_attrs" else v) for k, v in d.items()}))
+                    want = project(dict(DEFAULT_SNAPSHOT, **upd_to_dict(upd)))      # what the caller asked for, not what the dict has become
                     if pr != want:
                         bad("isolation:new-connection-not-default-plus-own", "a new connection's policy is not the defaults plus its own configuration",
                             {"step": step, "config": pr}, want)
@@ -1200,7 +1290,7 @@ def run_history(ctx, ops, facts, model_cases):
             if step < len(ops) - 1 and len(alive) > 3:      # every live connection at the end, the newest + two others in between
                 alive = [alive[-1]] + pick.sample(alive[:-1], 2)
             for j in alive:
-                w = decisions(conns[j], snaps[j])
+                w = decisions(conns[j], snaps[j], shared_objs)
                 if w:
                     bad("isolation:decision-differs-from-own-policy", "connection %d decides differently from the policy it was given (step %d)" % (j, step), w, snaps[j])
         case["closed_at_end"] = [int(bool(c.closed)) for c in conns]
@@ -1244,6 +1334,13 @@ def history_phase(ctx, model, facts, n, maxops):
         [["open", [], "classic", False], ["open", [], "void", False], ["close", 0], ["open", [], "void", False]],
         [["open", [["allow_public_attrs", True]], "void", True], ["open", [["allow_public_attrs", True]], "slave", True], ["open", [["allow_public_attrs", True]], "void", True]],
         [["open", [["safe_attrs", ["pub"]]], "void", False], ["open", [], "void", False], ["open", [["exposed_prefix", ""]], "classic", False], ["open", [], "void", False]],
+        # one caller-supplied non-empty dict object reused for several connections, one of them classic
+        [["open", [["allow_public_attrs", False]], "void", True], ["open", [["allow_public_attrs", False]], "classic", True], ["access", 0],
+         ["open", [["allow_public_attrs", False]], "void", True], ["close", 1], ["access", 2]],
+        [["open", [["allow_setattr", False], ["exposed_prefix", "x_"]], "classic", True], ["open", [["allow_setattr", False], ["exposed_prefix", "x_"]], "void", True]],
+        # a permissive and a restrictive connection reading the same long-lived objects
+        [["open", [["allow_all_attrs", True]], "void", False], ["open", [["allow_getattr", False]], "void", False], ["access", 0], ["access", 1],
+         ["open", [["allow_public_attrs", True]], "void", False]],
     ]
     for ops in fixed:
         run_history(ctx, ops, facts, pending)
@@ -1286,9 +1383,10 @@ def run(ctx):
         "_private, __dunder__, prefix in the middle, empty, '_', the bare prefix, one short of it) x object shape (has name / has twin / both / neither) "
         "x read/write/delete, plus bytes names (valid and invalid UTF-8), non-text names, own hooks and call-by-name per configuration; "
         "random: seeded configurations with unicode/odd prefixes, real and synthetic safe sets, names built relative to prefix and safe set, "
-        "bytes names with multi-byte and malformed UTF-8, hooks, attributes every object has; routes: cmp/ctxexit/oldslicing; restricted(): random "
+        "bytes names with multi-byte and malformed UTF-8, hooks, attributes every object has; routes: cmp/ctxexit/oldslicing on plain objects, objects with their own hook and restricted() views, with text, bytes, stray-byte and "
+        "non-text names; restricted(): random "
         "read/write lists in five container types; histories: seeded sequences of open (own dict, shared dict object, plain/slave/classic service), "
-        "close and requests of every handler kind (also on the service root), every connection checked after every step; service roots: every Service "
+        "close and requests of every handler kind, all connections of a history reading the same long-lived objects (also on the service root), every connection checked after every step; service roots: every Service "
         "class x read/write/delete x configuration as given / blanket; whole-object handlers (dir/inspect/pickle/repr/str/hash) under random policies. Non-trivial = text name with the operation's switch on (or own hook) for "
         "decisions; >= 2 connections for histories; distinct by the full canonical case.") % ("" if ctx.quick else ", 'x_', '_', 'é_'")
     b = Batch(ctx, model, facts)
@@ -1333,7 +1431,8 @@ def replay(ctx, rep):
         history_model(ctx, model, pending)
     elif kind == "cmp":
         cfg = cfg_dict(case["switches"], untext(case["prefix"]), [untext(x) for x in case["safe"]])
-        route_cmp(ctx, cfg, untext(case["opname"]), [untext(a) for a in case["have"]])
+        route_cmp(ctx, cfg, case["name"], [untext(a) for a in case["have"]], case.get("inst_hook", False))
     elif kind in ("ctxexit", "oldslicing"):
         cfg = cfg_dict(case["switches"], untext(case["prefix"]), [untext(x) for x in case["safe"]])
-        route_inst(ctx, cfg, kind, [untext(n) for n in case["names"]], [untext(a) for a in case["attrs"]])
+        route_inst(ctx, cfg, kind, case["names"], [untext(a) for a in case["attrs"]], case.get("okind", "plain"),
+                   [untext(a) for a in case.get("rattrs", [])])
